@@ -318,8 +318,10 @@ func runScenario(sc Scenario) Result {
 			if op.K == "reuse" || (op.K == "auto" && op.Reuse) {
 				conn = opConn[op.Target]
 				reused = conn != nil
-				if reused && prepOn[opPhysAll[op.Target]] {
-					tags["xa.conn-reuse"] = true // reuse after a SUCCESSFUL branch
+				if reused && op.K == "reuse" && prepOn[opPhysAll[op.Target]] {
+					// a pinned sql.Conn (no ResetSession) used again after a SUCCESSFUL branch; through the
+					// pool the same history is an error to the caller and is part of the clean stream
+					tags["xa.conn-reuse"] = true
 				}
 				if conn != nil && op.K == "auto" {
 					// through the pool: the connection goes back and is taken out again (ResetSession)
